@@ -17,7 +17,7 @@ RULE = (
     "every input accepted by strict decoding among: generated encodings of all non-union types (incl. signed, 64-bit, "
     "named-range and enum-backed leaves), all command codes x directions x configurations, the captured corpus; plus "
     "value-corrupted variants decoded in warn mode whenever every warning is a value warning; per event the re-encoded "
-    "chunk is compared with the input slice at the running offset and with the pinned width; warn-mode variants include two different out-of-range values in two fields of the same type, their collected event lists are re-encoded as a list after the decode and once more after up to 40 further decodes in the same process; distinct = distinct (type/code, "
+    "chunk is compared with the input slice at the running offset and with the pinned width; warn-mode variants include two different out-of-range values in two fields of the same type, their collected event lists are re-encoded as a list after the decode and once more after up to 40 further decodes in the same process; thorough: the repository's own test suite runs with a monitor around every decode it makes (look-ahead, round trip of clean completions, held events); distinct = distinct (type/code, "
     "configuration or fault, event count) cases"
 )
 ASSUMPTIONS = ["pinned widths", "contract layer (icontract) is supplementary; the trace law decides"]
@@ -34,6 +34,9 @@ def plan(tier, seed):
         shards.append(dict(name=f"msg{i}", kind="msg", ccs=ccs[i::n], n_configs=3 if q else 12))
     for i in range(2 if q else 6):
         shards.append(dict(name=f"corpus{i}", kind="corpus", start=i, step=(2 if q else 6) * (12 if q else 1)))
+    if not q:
+        # the repository's own tests as a workload: every decode they make runs under the boundary monitors
+        shards.append(dict(name="repo-tests", kind="repo-tests", timeout_s=1500))
     return shards
 
 
@@ -107,7 +110,53 @@ def recheck_retained(rec):
     del RETAINED[:]
 
 
+def run_repo_tests(shard, rec):
+    """pytest on the repository's tests with vt.repo_tests_plugin loaded; its observations are judged here."""
+    import glob
+    import json
+    import os
+    import subprocess
+    import tempfile
+
+    from .. import env
+
+    root = os.path.dirname(env.SRC)
+    tests = os.path.join(root, "test") if os.path.isdir(os.path.join(root, "test")) else "/repo/test"
+    tmp = tempfile.mkdtemp(prefix="vt_c02_repo_")
+    out = os.path.join(tmp, "obs")
+    try:
+        e = env.child_env({"VT_REPO_TESTS_OUT": out})
+        r = subprocess.run([env.PYTHON, "-m", "pytest", "-q", "-p", "no:cacheprovider", "-p", "vt.repo_tests_plugin", "-n", "8", "--continue-on-collection-errors", tests],
+                           cwd=os.path.dirname(tests), env=e, capture_output=True, text=True, timeout=1400)
+        tail = (r.stdout.strip().splitlines() or [""])[-1]
+        rec.sample(dict(pytest=tail))
+        files = glob.glob(out + ".*")
+        total = {}
+        for f in files:
+            d = json.load(open(f))
+            for k, v in d["counts"].items():
+                total[k] = total.get(k, 0) + v
+            for v in d["violations"]:
+                if v["rule"] == "monitor-error":
+                    rec.inconclusive_because(f"repository-tests monitor error: {v['message']}")
+                    continue
+                rec.violation("repo-tests:" + v["rule"], v["rule"], f"{v['test']}\n{v['tpm_type']} strict={v['strict']} code={v['command_code']} pulled={v['pulled'][:160]}\n{v['message']}",
+                              dict(kind="repo-tests", test=v["test"], pulled=v["pulled"], tpm_type=v["tpm_type"], strict=v["strict"]))
+        for k, v in total.items():
+            rec.count(f"repo_tests_{k}", v)
+        rec.case(("repo-tests", total.get("decodes", 0)), nontrivial=True, n=max(1, total.get("decodes", 0)))
+        if not files:
+            rec.inconclusive_because(f"the repository tests left no observations ({tail})")
+    finally:
+        import shutil
+
+        shutil.rmtree(tmp, ignore_errors=True)
+
+
 def run_shard(shard, rec):
+    if shard.get("kind") == "repo-tests":
+        run_repo_tests(shard, rec)
+        return
     rng = random.Random(f"{shard.get('seed', 0)}:C02:{shard['name']}")
     active = contracts.install()
     rec.count("contract_layer_active" if active else "contract_layer_missing")
@@ -134,6 +183,8 @@ def run_shard(shard, rec):
 
 def finish(m, tier):
     inc = []
+    if tier == "thorough" and not m["counters"].get("repo_tests_completed_clean"):
+        inc.append("the repository's tests were not observed under the monitors")
     for k in ("accepted", "warn_value_only", "negative_values", "64bit_fields", "twin_value_faults", "warn_several_value_warnings", "retained_lists_rechecked"):
         if not m["counters"].get(k):
             inc.append(f"no case of {k}")
@@ -143,6 +194,9 @@ def finish(m, tier):
 
 
 def replay(r, rec):
+    if r.get("kind") == "repo-tests":
+        run_repo_tests(dict(name="repo-tests"), rec)
+        return
     case = cases.Case.from_replay(r)
     if r.get("mode") == "warn":
         check_warn(case, rec)
